@@ -1,36 +1,32 @@
-import Asn1Proofs.Lemmas.CostPerNeg
+import Asn1Proofs.Lemmas.CostPerFuel
 /-
   C08p — C08 ("decoding arbitrary bytes is bounded") for the ALIGNED PER code model
   `Asn1Model/Per.lean` (`Per.dec`, `Per.decode`), for ALL types of the universe and ALL byte strings
   (no typing hypothesis: the input is arbitrary).
 
-  (1) FUEL SUFFICIENCY holds without any side condition: no reader ever lengthens the remaining input
-      (alignment only drops bits; the CHOICE rewind below goes back to a point that still lies behind
-      the start of the CHOICE), every fragment of `read_length_determinant_chunks` costs 8 bits, so the
-      fuel `8 * length + 2` of `Per.decode` is never exhausted and more fuel changes nothing.
+  (1) FUEL SUFFICIENCY: no reader ever lengthens the remaining input (every read moves forward,
+      alignment only drops bits), every fragment of `read_length_determinant_chunks` costs 8 bits, so
+      the fuel `8 * length + 2` of `Per.decode` is never exhausted and more fuel changes nothing.
 
   (2) ALLOCATION.  The size of a decoded value (`Val.nodes`, as in C08) is at most
 
-          KP t * (N + 1) ^ rewinds t * (bits consumed + 1)          (N = bits in front of the decoder)
+          KP t * (bits consumed + 1)
 
-      with `KP t` and `rewinds t` computable from the type only.  `rewinds t` is the nesting depth of
-      REWINDING CHOICEs: extensible CHOICE types with at least one known extension addition, on a path
-      the decoder can take.  If `rewinds t = 0` (a decidable condition on the type) this is exactly the
-      UPER statement: `K t * (8 * length + 1)` nodes for every input.  Zero-width elements
-      (SEQUENCE OF NULL) are bounded by the length determinant, exactly as in UPER.
+      with `KP t` computable from the type only: `KP t * (8 * length + 1)` nodes for every type and
+      every input, exactly the UPER statement.  Zero-width elements (SEQUENCE OF NULL) are bounded by
+      the length determinant, exactly as in UPER.
 
-  (3) THE NEGATIVE RESULT.  Without `rewinds t = 0` the linear bound is FALSE in this model, which
-      follows /repo at commit d1be151: `Choice.decode_additions` calls `skip_bits(8 * L - consumed)`;
-      when the addition read more than the `L` octets of its open type the count is negative and the
-      read position moves BACK, so the same octets are decoded again by what follows.  For
-      `SEQUENCE OF CHOICE { a NULL, ..., b OCTET STRING }` an explicit family of `98304 * q + 32769`
-      genuine octets decodes to more than `10^9 * q * (q - 1)` nodes: no constant `K` exists.
-      (This is the defect recorded for C08 in DESIGN.md; /repo was repaired in commit ace6523 — the
-      rewinding branch raises `DecodeError` — and with that branch an error, `rewinds` drops out of the
-      proof: `cases h` closes the case in `szp_choice`.)
+  (3) THE REPAIRED DEFECT.  Up to commit d1be151 of /repo `Choice.decode_additions` called
+      `skip_bits(8 * L - consumed)`; when a known extension addition read more than the `L` octets of
+      its open type the count was negative and the read position moved BACK, so the same octets were
+      decoded again by what followed.  The linear bound (2) was then FALSE for types with such a CHOICE
+      (`SEQUENCE OF CHOICE { a NULL, ..., b OCTET STRING }`: quadratic output) and an earlier version of
+      this file proved that negative result, and (2) only with a side condition `rewinds t = 0` resp. a
+      factor `(N + 1) ^ rewinds t`.  /repo was repaired in commit ace6523 (that branch raises
+      `DecodeError`), the model follows it, and (2) now holds without side condition;
+      `per_choice_overrun_rejected` keeps the former counterexample as a regression.
 
-  Lemmas: `Asn1Proofs/Lemmas/CostPer.lean`, `CostPerTypes.lean`, `CostPerComp.lean`, `CostPerFuel.lean`,
-  `CostPerNeg.lean`.
+  Lemmas: `Asn1Proofs/Lemmas/CostPer.lean`, `CostPerTypes.lean`, `CostPerComp.lean`, `CostPerFuel.lean`.
 -/
 namespace Asn1.C08p
 open Asn1 Asn1.CostP
@@ -71,63 +67,57 @@ theorem per_chunksBits_fuel_irrelevant (u f f' : Nat) (s : Per.St)
 /-! ## (2) allocation bounds -/
 
 /-- **aligned PER**, bit level, every type, every decoder state: the decoder never lengthens the
-remaining input, and it allocates at most `KP t * (N + 1) ^ rewinds t` nodes per bit consumed (+1),
-`N` = bits in front of the decoder.  `KP` is 1 for leaf types; a SEQUENCE OF multiplies by
-`1 + seqOfMaxP c ≥ 8193` (one length octet `c4` announces 65536 elements, which cost nothing when the
-element type is NULL). -/
+remaining input, and it allocates at most `KP t` nodes per bit consumed (+1).  `KP` is 1 for leaf types;
+a SEQUENCE OF multiplies by `1 + seqOfMaxP c ≥ 8193` (one length octet `c4` announces 65536 elements,
+which cost nothing when the element type is NULL). -/
 theorem per_dec_alloc (t : Ty) (f : Nat) (s : Per.St) (v : Val) (r : Per.St)
     (h : Per.dec t f s = .ok (v, r)) :
-    r.bs.length ≤ s.bs.length ∧
-      v.nodes ≤ KP t * (s.bs.length + 1) ^ rewinds t * (s.bs.length - r.bs.length + 1) :=
+    r.bs.length ≤ s.bs.length ∧ v.nodes ≤ KP t * (s.bs.length - r.bs.length + 1) :=
   per_dec_cost t f s v r h
 
-/-- without a rewinding CHOICE (`rewinds t = 0`, decidable): the statement of `uper_dec_alloc` -/
-theorem per_dec_alloc_linear (t : Ty) (hrw : rewinds t = 0) (f : Nat) (s : Per.St) (v : Val)
-    (r : Per.St) (h : Per.dec t f s = .ok (v, r)) :
-    r.bs.length ≤ s.bs.length ∧ v.nodes ≤ KP t * (s.bs.length - r.bs.length + 1) :=
-  per_dec_cost_linear t hrw f s v r h
-
-/-- **aligned PER**: allocation bound in octets of input, types without a rewinding CHOICE -/
-theorem per_alloc_bound (t : Ty) (hrw : rewinds t = 0) (bs : Bytes) (v : Val)
+/-- **aligned PER**: allocation bound in octets of input, every type, every octet string -/
+theorem per_alloc_bound (t : Ty) (bs : Bytes) (v : Val)
     (h : Per.decode t bs = .ok v) : v.nodes ≤ 8 * KP t * (bs.length + 1) :=
-  per_decode_alloc' t hrw bs v h
+  per_decode_alloc' t bs v h
 
 /-- the sharper form `KP t * (8 * length + 1)` -/
-theorem per_alloc_bound_bits (t : Ty) (hrw : rewinds t = 0) (bs : Bytes) (v : Val)
+theorem per_alloc_bound_bits (t : Ty) (bs : Bytes) (v : Val)
     (h : Per.decode t bs = .ok v) : v.nodes ≤ KP t * (8 * bs.length + 1) :=
-  per_decode_alloc t hrw bs v h
+  per_decode_alloc t bs v h
 
-/-- every type: polynomial of degree `rewinds t + 1` in the length of the input -/
-theorem per_alloc_bound_poly (t : Ty) (bs : Bytes) (v : Val) (h : Per.decode t bs = .ok v) :
-    v.nodes ≤ KP t * (8 * bs.length + 1) ^ (rewinds t + 1) :=
-  per_decode_alloc_poly t bs v h
+/-! ## (3) regression: a CHOICE addition that overruns its open type is rejected -/
 
-/-! ## (3) the negative result: a rewinding CHOICE is decoded again and again -/
+/-- `CHOICE { a NULL, ..., b OCTET STRING }` -/
+def rwChoice : Ty :=
+  .choice (.cons "a" .null .nil) true (.cons "b" (.octetString ⟨0, none, false⟩) .nil)
 
-/-- **no linear allocation bound** for `SEQUENCE OF CHOICE { a NULL, ..., b OCTET STRING }`
-(`rewinds = 1`): the statement of `uper_alloc_bound_bits` fails for every constant -/
-theorem per_no_alloc_bound :
-    ¬ ∃ K : Nat, ∀ (bs : Bytes) (v : Val),
-      Per.decode rwList bs = .ok v → v.nodes ≤ K * (8 * bs.length + 1) :=
-  CostP.per_no_alloc_bound
+/-- `SEQUENCE OF CHOICE { a NULL, ..., b OCTET STRING }` -/
+def rwList : Ty := .sequenceOf rwChoice ⟨0, none, false⟩
 
-/-- the family of inputs: for every `q`, `98304 * q + 32769` genuine octets — `q` fragments
-`(c2 80 01)^32767 c2 80 00` of 32768 elements each, then 32769 octets `00` — are accepted and give a
-value of at least `1073709056 * q * (q - 1)` nodes: quadratic, so the degree `rewinds t + 1 = 2` of
-`per_alloc_bound_poly` is attained -/
-theorem per_alloc_quadratic (q : Nat) :
-    (rwInput q).length = 98304 * q + 32769 ∧ (∀ b ∈ rwInput q, b < 256) ∧
-    ∃ v, Per.decode rwList (rwInput q) = .ok v ∧
-      1073709056 * (q * q) ≤ v.nodes + 1073709056 * q :=
-  ⟨rwInput_length q, rwInput_octets q, rw_decode_quadratic q⟩
+/-- **regression for the defect repaired in commit ace6523 of /repo.**  The smallest inputs on which
+`Choice.decode_additions` used to call `skip_bits` with a negative count are now a `DecodeError`:
 
-/-- the inductive statement `per_dec_alloc_linear` fails already for ONE rewinding CHOICE: the decoder
-of `CHOICE { a NULL, ..., b OCTET STRING }` consumes 24 bits and returns a value as large as the rest
-of the message -/
-theorem per_dec_no_linear_cost :
-    ¬ ∃ K : Nat, ∀ (f : Nat) (s : Per.St) (v : Val) (r : Per.St),
-      Per.dec rwChoice f s = .ok (v, r) → v.nodes ≤ K * (s.bs.length - r.bs.length + 1) :=
-  CostP.per_dec_no_linear_cost
+* `80 00 00` for `CHOICE { a NULL, ..., b OCTET STRING }`: addition 0 in an open type of ZERO octets,
+  whose OCTET STRING (a length octet `00`) reads 8 bits.  Before the repair this was accepted and the
+  read position moved 8 bits BACKWARDS, to the end of the open type;
+* `02 80 01 03 80 00 01 55` for the SEQUENCE OF: two elements; the first one (`80 01 03`: open type of
+  ONE octet, OCTET STRING of 3) read `80 00 01`, then the decoder went back and read `80 00` AGAIN as
+  the second element: the result was `[b: 80 00 01, b: 55]`, octets decoded twice.
+
+Iterating this gave quadratic output, so that no bound `K * (8 * length + 1)` held for the SEQUENCE OF
+(the former theorems `per_no_alloc_bound`, `per_alloc_quadratic`, `per_dec_no_linear_cost` of this file).
+The family was: `q` copies of `(c2 80 01)^32767 c2 80 00`, followed by 32769 zero octets --
+`98304 * q + 32769` octets.  It is a SEQUENCE OF in `q` fragments (markers `c2`) of 32768 elements
+`80 01 c2` / `80 00 c2` each; the OCTET STRING of every element starts on a fragment marker `c2` and
+so ran through the whole rest of the message (the markers are `32769 = 3 * 10923` octets apart, every
+third octet is `c2`), after which the decoder continued 3 octets behind the start of the element.  The
+value had more than `1073709056 * q * (q - 1)` nodes.  With the repair the first element of every
+member of the family is rejected like the inputs below, and `per_alloc_bound_bits` holds for
+`rwList`. -/
+theorem per_choice_overrun_rejected :
+    Per.decode rwChoice [0x80, 0x00, 0x00] = .error .decodeError ∧
+    Per.decode rwList [0x02, 0x80, 0x01, 0x03, 0x80, 0x00, 0x01, 0x55] = .error .decodeError :=
+  ⟨rfl, rfl⟩
 
 /-! ## (4) non-vacuity: kernel-evaluated examples -/
 
@@ -144,22 +134,15 @@ example : Per.decode (.octetString c0) [0xff] = .error .decodeError := by rfl
 set_option maxRecDepth 10000 in
 example : (Per.decode (.sequenceOf .null c0) [0x7f]).toOption.map Val.nodes = some 128 := by rfl
 example : KP (.sequenceOf .null c0) = 8194 := by rfl
-example : rewinds (.sequenceOf .null c0) = 0 := by rfl
--- an extensible CHOICE without known additions, an extensible SEQUENCE with additions: no rewind
-example : rewinds (.choice (.cons "a" .null .nil) true .nil) = 0 := by rfl
-example : rewinds (.sequence (.cons "a" .mandatory (.octetString c0) .nil) true
-    (.cons "b" .optional (.octetString c0) .nil)) = 0 := by rfl
--- the type of the negative result
-example : rewinds rwList = 1 := by rfl
+-- the type of the regression: linear bound, like every type
 example : KP rwList = 32773 := by rfl
--- the rewind at work: 8 octets, two elements; the first one (`80 01 03`: addition 0, open type of ONE
--- octet, OCTET STRING of 3) reads `80 00 01`, then the decoder goes back and reads `80 00` again as
--- the second element, whose OCTET STRING `01 55` lies wholly outside its (empty) open type
-example : Per.decode rwList [0x02, 0x80, 0x01, 0x03, 0x80, 0x00, 0x01, 0x55]
-    = .ok (.list [.choice "b" (.bytes [0x80, 0x00, 0x01]), .choice "b" (.bytes [0x55])]) := by rfl
--- without reading past the open type nothing is read twice
+-- an addition that fills its open type exactly (or leaves padding) is accepted as before
 example : Per.decode rwList [0x01, 0x80, 0x02, 0x01, 0x55]
     = .ok (.list [.choice "b" (.bytes [0x55])]) := by rfl
+example : Per.decode rwList [0x01, 0x80, 0x03, 0x01, 0x55, 0x00]
+    = .ok (.list [.choice "b" (.bytes [0x55])]) := by rfl
+-- one octet too few in the open type: rejected
+example : Per.decode rwList [0x01, 0x80, 0x01, 0x01, 0x55] = .error .decodeError := by rfl
 
 end examples
 
@@ -171,10 +154,6 @@ end Asn1.C08p
 #print axioms Asn1.C08p.per_chunks_fuel_irrelevant
 #print axioms Asn1.C08p.per_chunksBits_fuel_irrelevant
 #print axioms Asn1.C08p.per_dec_alloc
-#print axioms Asn1.C08p.per_dec_alloc_linear
 #print axioms Asn1.C08p.per_alloc_bound
 #print axioms Asn1.C08p.per_alloc_bound_bits
-#print axioms Asn1.C08p.per_alloc_bound_poly
-#print axioms Asn1.C08p.per_no_alloc_bound
-#print axioms Asn1.C08p.per_alloc_quadratic
-#print axioms Asn1.C08p.per_dec_no_linear_cost
+#print axioms Asn1.C08p.per_choice_overrun_rejected
